@@ -346,6 +346,15 @@ def wire_value_verdict(doc: dict, schema: Any, value: Any, loc: str, spec: str) 
         return True if all(v is True for v in vs) else None
     as_is = common.param_verdict(doc, schema, value, loc, spec)
     if loc == "query" and isinstance(value, (list, tuple)) and not common._allows_array(doc, schema, spec):
+        if len(value) > 0 and all(isinstance(v, (list, tuple, dict)) for v in value):
+            # items that are containers themselves (measured with requests' PreparedRequest: every item of a list goes through
+            # urlencode(doseq=True), so `[[]]`, `[{}]`, `[[], []]` send nothing, `[[0]]` sends `p=0`, `[{"a": 1}]` sends `p=a`)
+            flat = [x for v in value for x in v]
+            if len(flat) == 0:
+                return ABSENT
+            if len(flat) == 1 and not isinstance(flat[0], (list, tuple, dict)) and flat[0] is not None:
+                return wire_value_verdict(doc, schema, [flat[0]], loc, spec) if as_is is not True else True
+            return True if as_is is True else None
         if len(value) == 0:
             return ABSENT
         if len(value) == 1:
